@@ -1,12 +1,12 @@
 SPECIFICATION Spec
 CONSTANTS
-  Mode = "direct"
+  Mode = "plugin"
   Flows = FALSE
   MaxLines = 3
   MaxBatch = 2
-  MaxTicks = 1
+  MaxTicks = 0
   MaxRestarts = 1
-  MaxWrites = 0
+  MaxWrites = 2
   Bug = "none"
-INVARIANTS Accept
+INVARIANTS Accept RefreshTakesEffect NeverInvalidTree
 CHECK_DEADLOCK FALSE
